@@ -5,8 +5,8 @@ from nodegen import *
 ID = "C13"
 DRIVER = "node"
 MODEL_FILES = ["Model/Base.v", "Model/Parse.v", "Model/Node.v"]
-THEOREMS = []
-STRENGTH = {}
+THEOREMS = ["C13_arbiter_never_silent", "C13_conflict_notice_text", "C13_conflict_key_neq", "C13_later_writes_queue", "C13_resolve_last", "C13_resolve_pending", "C13_register_arbiter_resends", "C13_record_needs_writable_key", "C13_arbiter_scenario"]
+STRENGTH = {t: "proof-unbounded" for t in THEOREMS}
 RULE = ("exhaustive sequences (length <= 4 quick / 5 thorough) over {plain write, versioned conflicting / non-conflicting "
         "write on keys k and kk (one name contains the other), arbiter connect, arbiter disconnect, resolve the oldest/newest "
         "pending notice (echoing its op id and version)} plus seeded random sequences up to 25 steps; at the end every pending "
